@@ -1,4 +1,5 @@
 import PandoraModel.Properties.C03
+import PandoraModel.Properties.C03Kernels
 open Pandora.C03 Pandora.Blocks
 #print axioms arange_sorted
 #print axioms arraySplit_contig
@@ -13,3 +14,9 @@ open Pandora.C03 Pandora.Blocks
 #print axioms toDisp_spec
 #print axioms source_blocks_spec
 #print axioms cvAfter_eq
+-- T15: the numpy glue of to_disp / argmin_split / argmax_split regenerated from the source = the model
+#print axioms Pandora.C03Kernels.arg_substituted
+#print axioms Pandora.C03Kernels.toDisp_generated
+#print axioms Pandora.C03Kernels.toDisp_generated_cv
+#print axioms Pandora.C03Kernels.toDisp_generated_spec
+#print axioms Pandora.C03Kernels.carried_fields
